@@ -135,6 +135,14 @@ Bytes World::make_packet(const J &op)
 		(uint8_t)(src >> 24), (uint8_t)(src >> 16), (uint8_t)(src >> 8), (uint8_t)src, (uint8_t)(dst >> 24), (uint8_t)(dst >> 16), (uint8_t)(dst >> 8), (uint8_t)dst};
 	if (len >= 24) memcpy(p.data(), hdr, 24);
 	else { memcpy(p.data(), hdr, len < 4 ? len : 4); for (size_t i = 4; i < len; i++) p[i] = (uint8_t)(splitmix64(ser) >> (8 * ((i - 4) % 8))); }
+	// frames that are not a well-formed IPv4 packet of exactly this length: the tunnel carries whatever the tun device delivers
+	std::string shape = op.gets("shape");
+	if (len >= 24 && !shape.empty()) {
+		if (shape == "v6") { p[4] = 0x60; p[5] = 0; p[6] = 0; p[7] = 0; p[8] = (uint8_t)((len - 44) >> 8); p[9] = (uint8_t)(len - 44); p[10] = 17; p[11] = 64; }
+		else if (shape == "short_iplen") { size_t l = (len - 4) / 2; p[6] = (uint8_t)(l >> 8); p[7] = (uint8_t)l; }
+		else if (shape == "long_iplen") { p[6] = 0xff; p[7] = 0xff; }
+		else if (shape == "noip") for (size_t i = 4; i < 20; i++) p[i] = (uint8_t)(splitmix64(ser * 7919 + i) >> 13);
+	}
 	// serial for uniqueness / attribution
 	if (len >= 36) for (int i = 0; i < 8; i++) p[24 + i] = (uint8_t)(ser >> (8 * (7 - i)));
 	if (len >= 40) { p[32] = 'S'; p[33] = 'I'; p[34] = 'M'; p[35] = '!'; }
